@@ -2,9 +2,9 @@
 # Developer tool: every stored seeded change against the check of its own property, on the private copy
 # given by SEEDW (default /root/scratch/seedw2). One line per change.
 export SEEDW=${SEEDW:-/root/scratch/seedw2}
-cd /verif
-for d in seeded/*/; do
+cd ${VSRC:-/verif}
+for d in ${SEED_GLOB:-seeded/*/}; do
   name=$(basename $d)
   prop=$(python3 -c "import json;print(json.load(open('$d/meta.json'))['property'].split(',')[0].strip())")
-  ./seedcopy.sh seeded $name $prop 2>&1 | grep -E "CONCRETE|MISSED|DIVERGENCE|patch does not" | cut -c1-150
+  /verif/seedcopy.sh seeded $name $prop 2>&1 | grep -E "CONCRETE|MISSED|DIVERGENCE|patch does not" | cut -c1-150
 done
